@@ -104,3 +104,290 @@ class color_of_palette_entry:
         ),
     }
     native = False
+
+
+@contract("nanoemoji.paint.is_transform", props=["C13", "C02"])
+class is_transform_formats:
+    args = {"paint_or_format": Int}
+    ensures = {
+        # COLR paint formats 12..31 are the (variable and non-variable) transform paints
+        "range": lambda paint_or_format, result: result == (12 <= paint_or_format and paint_or_format <= 31),
+    }
+
+
+# ---- _colr_v1_paint_to_svg: every transform on the way to a leaf is applied exactly once ----
+#
+# The function walks a COLR paint graph and carries a *pending* font-space transform.  At each
+# level it may (a) write the pending transform on a new SVG element -- as V T V^-1, which
+# makes the element draw its content through T -- and (b) pass a pending transform to the
+# paints below.  C13 needs, at every level,
+#
+#        written(level)  o  passed-down   ==   pending-in  o  own-transform-of-this-paint
+#
+# (own transform applied first, COLR semantics); by induction over the graph every leaf is
+# then drawn through the product of the transforms on its path, once.
+
+OTP = Opaque("otPaint")
+_SELF = "nanoemoji.colr_to_svg._colr_v1_paint_to_svg"
+
+
+@contract("nanoemoji.colr_to_svg._apply_solid_ot_paint", props=["C13"])
+class apply_solid_ot_paint_stub:
+    assumed = True
+    args = {"svg_path": Opaque("any"), "ttfont": Opaque("any"), "ot_paint": Opaque("any")}
+    returns = Const(None)
+    ensures = {}
+    native = False
+    note = "sets fill / opacity on the element (bounded tier: colr_to_svg pictures)"
+
+
+@contract("nanoemoji.colr_to_svg._apply_gradient_ot_paint", props=["C13"])
+class apply_gradient_ot_paint_stub:
+    assumed = True
+    args = {
+        "svg_defs": Opaque("any"), "svg_path": Opaque("any"), "ttfont": Opaque("any"), "font_to_vbox": AFF,
+        "ot_paint": Opaque("any"), "reuse_cache": Opaque("any"), "transform": AFF,
+    }
+    returns = Const(None)
+    ensures = {}
+    native = False
+    note = "defines the gradient mapped through `transform` then font_to_vbox (its pieces: _map_gradient_coordinates, radial split, svg gradient definitions are under contract; the whole is in the bounded tier)"
+
+
+@contract("nanoemoji.colr_to_svg._draw_svg_path", props=["C13"])
+class draw_svg_path_stub:
+    assumed = True
+    args = {"svg_path": Opaque("any"), "glyph_set": Opaque("any"), "glyph_name": Str, "font_to_vbox": AFF}
+    returns = Const(None)
+    ensures = {}
+    native = False
+    note = "draws glyph_name's outline through font_to_vbox into the path's d (bounded tier)"
+
+
+@contract("nanoemoji.paint.Paint.from_ot", props=["C13"])
+class paint_from_ot_stub:
+    assumed = True
+    args = {"cls": Opaque("any"), "ot_paint": Opaque("any")}
+    returns = lambda: Instance("spec.GhostTransformPaint", m=AFF)
+    ensures = {}
+    native = False
+    note = "a transform paint read back from its otTables form has SOME affine (field mapping is exercised natively by the paint round-trip tests and the bounded tier)"
+
+
+def _pending(t):
+    return spec.aff(t)
+
+
+def _written_ok(el, transform, font_to_vbox, calls):
+    """`el` carries the pending transform T as V^-1 ; T ; V (left to right), or nothing if T = I"""
+    return iff(spec.aff(transform) != spec.ID, "transform" in el.attrib) and (
+        "transform" not in el.attrib
+        or el.attrib["transform"]
+        == ufn(
+            "svg_matrix_string",
+            "str",
+            spec.ltr(spec.aff(calls["picosvg.svg_transform.Affine2D.inverse"][0].result), spec.aff(transform), spec.aff(font_to_vbox)),
+        )
+    )
+
+
+_COLR = lambda **k: Const({"COLR": Obj(table=Obj(**k))})
+_BASE = _COLR(
+    LayerList=Obj(Paint=ListOf(OTP, OTP, OTP)),
+    BaseGlyphList=Obj(BaseGlyphPaintRecord=ListOf(Obj(BaseGlyph=Str, Paint=OTP), Obj(BaseGlyph=Str, Paint=OTP))),
+)
+_COMMON = {
+    "ttfont": _BASE,
+    "glyph_set": Opaque("any"),
+    "parent_el": Elem("g"),
+    "svg_defs": Elem("defs"),
+    "font_to_vbox": AFF,
+    "reuse_cache": Opaque("any"),
+    "transform": AFF,
+}
+_REQ = [lambda font_to_vbox: abs(spec.det(spec.aff(font_to_vbox))) > 2 ** -52]
+
+
+def _rec(calls, i=0):
+    return calls[_SELF][i].args
+
+
+@contract(_SELF, props=["C13"])
+class paint_to_svg_leaf_paints:
+    """PaintSolid / gradients: the pending transform goes to the gradient, nothing is written"""
+
+    args = dict(_COMMON, ot_paint=OneOf(Obj(Format=Const(2)), Obj(Format=Const(4)), Obj(Format=Const(6))))
+    requires = _REQ
+    # the recursion hypothesis at call sites: nothing is assumed about a recursive call (the
+    # paint graph is a DAG, so the induction over it is well-founded)
+    returns = Const(None)
+    modular_ensures = {}
+    ensures = {
+        "gradient-gets-the-pending-transform": lambda ot_paint, transform, font_to_vbox, calls: ot_paint.Format == 2
+        or (
+            spec.aff(calls["nanoemoji.colr_to_svg._apply_gradient_ot_paint"][0].args.transform) == spec.aff(transform)
+            and spec.aff(calls["nanoemoji.colr_to_svg._apply_gradient_ot_paint"][0].args.font_to_vbox) == spec.aff(font_to_vbox)
+        ),
+        "nothing-added": lambda parent_el: len(parent_el.children) == 0 and "transform" not in parent_el.attrib,
+    }
+    native = False
+
+
+@contract(_SELF, props=["C13"])
+class paint_to_svg_glyph:
+    """PaintGlyph: a <path> carrying the pending transform; its fill is reached with identity"""
+
+    args = dict(_COMMON, ot_paint=Obj(Format=Const(10), Glyph=Str, Paint=OTP))
+    requires = _REQ
+    ensures = {
+        "one-path-under-the-parent": lambda parent_el: len(parent_el.children) == 1 and parent_el.children[0].tag == "path",
+        "path-carries-the-pending-transform": lambda parent_el, transform, font_to_vbox, calls: _written_ok(parent_el.children[0], transform, font_to_vbox, calls),
+        # written o passed == pending  (passed = I because the path's transform already
+        # affects its gradient, issue #334)
+        "accounting": lambda parent_el, ot_paint, calls: len(calls[_SELF]) == 1
+        and _rec(calls).parent_el is parent_el.children[0]
+        and same(_rec(calls).ot_paint, ot_paint.Paint)
+        and spec.aff(_rec(calls).transform) == spec.ID,
+        "outline-through-font-to-viewbox": lambda parent_el, ot_paint, font_to_vbox, calls: calls["nanoemoji.colr_to_svg._draw_svg_path"][0].args.svg_path
+        is parent_el.children[0]
+        and calls["nanoemoji.colr_to_svg._draw_svg_path"][0].args.glyph_name == ot_paint.Glyph
+        and spec.aff(calls["nanoemoji.colr_to_svg._draw_svg_path"][0].args.font_to_vbox) == spec.aff(font_to_vbox),
+    }
+    native = False
+
+
+@contract(_SELF, props=["C13"])
+class paint_to_svg_transform:
+    """transform paints: nothing written, own affine applied before the pending one"""
+
+    args = dict(_COMMON, ot_paint=OneOf(*[Obj(Format=Const(f), Paint=OTP) for f in (12, 14, 16, 18, 20, 22, 24, 26, 28, 30)]))
+    requires = _REQ
+    ensures = {
+        "accounting": lambda parent_el, ot_paint, transform, calls: len(calls[_SELF]) == 1
+        and _rec(calls).parent_el is parent_el
+        and same(_rec(calls).ot_paint, ot_paint.Paint)
+        and spec.aff(_rec(calls).transform) == spec.mul(spec.aff(transform), spec.aff(calls["nanoemoji.paint.Paint.from_ot"][0].result.m)),
+        "nothing-added": lambda parent_el: len(parent_el.children) == 0 and "transform" not in parent_el.attrib,
+    }
+    native = False
+
+
+@contract(_SELF, props=["C13"])
+class paint_to_svg_layers:
+    """PaintColrLayers: each layer of the run, in order, with the pending transform"""
+
+    scope = "finite: a layer list of 3 paints and the runs [0,2), [1,3), [0,3), [2,2)"
+    args = dict(
+        _COMMON,
+        ot_paint=OneOf(
+            Obj(Format=Const(1), FirstLayerIndex=Const(0), NumLayers=Const(2)),
+            Obj(Format=Const(1), FirstLayerIndex=Const(1), NumLayers=Const(2)),
+            Obj(Format=Const(1), FirstLayerIndex=Const(0), NumLayers=Const(3)),
+            Obj(Format=Const(1), FirstLayerIndex=Const(2), NumLayers=Const(0)),
+        ),
+    )
+    requires = _REQ
+    ensures = {
+        "every-layer-in-order-with-the-pending-transform": lambda ttfont, parent_el, ot_paint, transform, calls: (len(calls[_SELF]) if _SELF in calls else 0) == ot_paint.NumLayers
+        and all(
+            _rec(calls, i).parent_el is parent_el
+            and same(_rec(calls, i).ot_paint, ttfont["COLR"].table.LayerList.Paint[ot_paint.FirstLayerIndex + i])
+            and spec.aff(_rec(calls, i).transform) == spec.aff(transform)
+            for i in range(0, ot_paint.NumLayers)
+        ),
+        "nothing-added": lambda parent_el: len(parent_el.children) == 0 and "transform" not in parent_el.attrib,
+    }
+    native = False
+
+
+@contract(_SELF, props=["C13"])
+class paint_to_svg_colr_glyph:
+    """PaintColrGlyph: the referenced glyph's paint; a pending transform is written on a <g>
+    and then NOT passed down again"""
+
+    args = dict(_COMMON, ot_paint=Obj(Format=Const(11), Glyph=Str))
+    requires = _REQ + [
+        lambda ttfont, ot_paint: (ttfont["COLR"].table.BaseGlyphList.BaseGlyphPaintRecord[0].BaseGlyph == ot_paint.Glyph)
+        != (ttfont["COLR"].table.BaseGlyphList.BaseGlyphPaintRecord[1].BaseGlyph == ot_paint.Glyph)
+    ]
+    ensures = {
+        "group-iff-pending": lambda parent_el, transform: iff(spec.aff(transform) != spec.ID, len(parent_el.children) == 1)
+        and (len(parent_el.children) == 0 or parent_el.children[0].tag == "g"),
+        "group-carries-the-pending-transform": lambda parent_el, transform, font_to_vbox, calls: len(parent_el.children) == 0
+        or _written_ok(parent_el.children[0], transform, font_to_vbox, calls),
+        # written o passed == pending: either (T on the <g>, I passed) or (nothing, T = I passed)
+        "accounting": lambda parent_el, transform, calls: len(calls[_SELF]) == 1
+        and (
+            (_rec(calls).parent_el is parent_el.children[0] and spec.aff(_rec(calls).transform) == spec.ID)
+            if len(parent_el.children) == 1
+            else (_rec(calls).parent_el is parent_el and spec.aff(_rec(calls).transform) == spec.aff(transform))
+        ),
+        "the-referenced-glyphs-paint": lambda ttfont, ot_paint, calls: any(
+            r.BaseGlyph == ot_paint.Glyph and same(_rec(calls).ot_paint, r.Paint) for r in ttfont["COLR"].table.BaseGlyphList.BaseGlyphPaintRecord
+        ),
+    }
+    native = False
+
+
+_SRC_IN = EnumConst("fontTools.ttLib.tables.otTables.CompositeMode", "SRC_IN")
+_SRC_OVER = EnumConst("fontTools.ttLib.tables.otTables.CompositeMode", "SRC_OVER")
+_PAL1 = SeqOf(Obj(red=Int, green=Int, blue=Int, alpha=Int))
+
+
+@contract(_SELF, props=["C13"])
+class paint_to_svg_group_opacity:
+    """PaintComposite(SRC_IN, source, solid black with alpha): a <g opacity=alpha> holding the
+    source; any other composite is announced with a warning (not silently mis-drawn)"""
+
+    args = dict(
+        _COMMON,
+        ttfont=Const(
+            {
+                "COLR": Obj(table=Obj(LayerList=Obj(Paint=ListOf(OTP)), BaseGlyphList=Obj(BaseGlyphPaintRecord=ListOf(Obj(BaseGlyph=Str, Paint=OTP))))),
+                "CPAL": Obj(palettes=ListOf(_PAL1)),
+            }
+        ),
+        ot_paint=OneOf(
+            Obj(Format=Const(32), CompositeMode=_SRC_IN, SourcePaint=OTP, BackdropPaint=Obj(Format=Const(2), PaletteIndex=Int, Alpha=Real)),
+            Obj(Format=Const(32), CompositeMode=_SRC_IN, SourcePaint=OTP, BackdropPaint=Obj(Format=Const(4))),
+            Obj(Format=Const(32), CompositeMode=_SRC_OVER, SourcePaint=OTP, BackdropPaint=Obj(Format=Const(2), PaletteIndex=Int, Alpha=Real)),
+        ),
+    )
+    requires = _REQ + [
+        lambda ttfont, ot_paint: ot_paint.BackdropPaint.Format != 2
+        or (ot_paint.BackdropPaint.PaletteIndex >= 0 and (ot_paint.BackdropPaint.PaletteIndex == 0xFFFF or ot_paint.BackdropPaint.PaletteIndex < len(ttfont["CPAL"].palettes[0])))
+    ]
+    ensures = {
+        # the pending transform is handed on unchanged, to exactly one sub-paint
+        "accounting": lambda transform, calls: len(calls[_SELF]) == 1 and spec.aff(_rec(calls).transform) == spec.aff(transform),
+        # group opacity: exactly when the backdrop is a black solid (any alpha) under SRC_IN
+        "group-opacity-iff-black-solid-src-in": lambda ttfont, parent_el, ot_paint, calls: iff(
+            len(parent_el.children) == 1,
+            ot_paint.CompositeMode == _src_in()
+            and ot_paint.BackdropPaint.Format == 2
+            and _is_black(ttfont, ot_paint.BackdropPaint.PaletteIndex),
+        ),
+        # anything else is announced, and only the backdrop is drawn
+        "otherwise-a-warning": lambda parent_el, ot_paint, calls: len(parent_el.children) == 1
+        or ("absl.logging.warning" in calls and same(_rec(calls).ot_paint, ot_paint.BackdropPaint)),
+        "group-holds-the-source": lambda parent_el, ot_paint, calls: len(parent_el.children) == 0
+        or (
+            parent_el.children[0].tag == "g"
+            and "opacity" in parent_el.children[0].attrib
+            and _rec(calls).parent_el is parent_el.children[0]
+            and same(_rec(calls).ot_paint, ot_paint.SourcePaint)
+        ),
+    }
+    native = False
+
+
+def _src_in():
+    from fontTools.ttLib.tables.otTables import CompositeMode
+
+    return CompositeMode.SRC_IN
+
+
+def _is_black(ttfont, idx):
+    # foreground (0xFFFF) maps to the currentColor sentinel (-1,-1,-1): not black
+    pal = ttfont["CPAL"].palettes[0]
+    return idx != 0xFFFF and (pal[idx].red, pal[idx].green, pal[idx].blue) == (0, 0, 0)
